@@ -247,7 +247,13 @@ func (w *hostWorld) doRenew(p vhlib.ParsedLine) string {
 		return obs + " " + snapObs(before, before)
 	}
 	w.waitUnlocked()
-	return obs + " " + snapObs(before, w.snapshot())
+	after := w.snapshot()
+	if after.pool != before.pool {
+		// the host answered with an error but its transaction pool changed: whatever it broadcast now conflicts
+		// with every later renewal of this contract — continue on a fresh host
+		w.poisoned = true
+	}
+	return obs + " " + snapObs(before, after)
 }
 
 // renew3 talks to handleRPCRenew.
@@ -272,7 +278,7 @@ func (w *hostWorld) renew3(p vhlib.ParsedLine) string {
 		if isClosedErr(err) {
 			w.redialIfDead()
 		}
-		return "res=reject"
+		return "res=reject why=" + sanitize(err.Error())
 	}
 	if err := s.WriteRequest(crhp3.RPCRenewContractID, &uid); err != nil {
 		w.dial3()
@@ -481,7 +487,7 @@ func (w *hostWorld) renew2(p vhlib.ParsedLine) string {
 	}
 	final.MissedProofOutputs = final.ValidProofOutputs
 
-	reject := func(err error) string { return "res=" + classify2(err) }
+	reject := func(err error) string { return "res=" + classify2(err) + " why=" + sanitize(err.Error()) }
 	req := &crhp2.RPCRenewAndClearContractRequest{
 		Transactions:          buildSet(txn, p.Int("txns"), cm.UnconfirmedParents(txn)),
 		RenterKey:             w.hostileKey(orDefault(p.Args["keyalg"], "ok"), p.Int("keylen")),
@@ -578,7 +584,11 @@ func (w *hostWorld) doForm2(p vhlib.ParsedLine) string {
 		r := classify2(err)
 		tr.Close()
 		time.Sleep(20 * time.Millisecond)
-		return fmt.Sprintf("res=%s %s", r, snapObs(before, w.snapshot()))
+		after := w.snapshot()
+		if after.pool != before.pool {
+			w.poisoned = true
+		}
+		return fmt.Sprintf("res=%s why=%s %s", r, sanitize(err.Error()), snapObs(before, after))
 	}
 	req := &crhp2.RPCFormContractRequest{Transactions: buildSet(txn, p.Int("txns"), cm.UnconfirmedParents(txn)),
 		RenterKey: w.hostileKey(orDefault(p.Args["keyalg"], "ok"), p.Int("keylen"))}
